@@ -21,11 +21,15 @@ def specs(tier):
          gridlab.tokamak_spec("cdn", options={"ny_inner_sol": 4, "ny_outer_sol": 6}, extract=ex),
          # a coarse FineContour extended only a little past the targets: the outermost boundary cells depend on how the extension ends
          gridlab.tokamak_spec("lsn", options={"finecontour_Nfine": 22, "finecontour_extend_prefactor": 1.5, "ny_inner_divertor": 8, "ny_outer_divertor": 10}, extract=ex)]
+    # a grid on which no two options that could be confused coincide (see gridlab.odd_spec)
+    S.append(gridlab.odd_spec("lsn", True, extract=ex))
     if tier == "thorough":
         S += [gridlab.tokamak_spec("ldn", extract=ex), gridlab.tokamak_spec("udn", options={"orthogonal": False}, extract=ex),
               gridlab.tokamak_spec("usn", options={"y_boundary_guards": 2}, extract=ex),
               gridlab.tokamak_spec("lsn", options={"orthogonal": False, "ny_outer_divertor": 9, "ny_sol": 12, "ny_inner_divertor": 6}, extract=ex),
               gridlab.circular_spec(options={"poloidal_spacing_method": "linear", "finecontour_Nfine": 400}, extract=ex)]
+    if tier == "thorough":
+        S.append(gridlab.odd_spec("cdn", False, extract=ex))
     return S
 
 
